@@ -88,6 +88,10 @@ def bincount(x, weights=None, minlength=0, split_every=None):
         # x's blocks are paired with the weights' blocks one to one: pin both
         # layouts, so a rewrite of either onto other chunks cannot unpair them
         x, weights = x.freeze_chunks(), weights.freeze_chunks()
+    else:
+        # the reduction tree below is sized for the blocks x advertises now;
+        # on more blocks it would be too shallow and keep one group's counts
+        x = x.freeze_chunks()
 
     if weights is not None:
         meta = np.bincount([1], weights=np.array([1], dtype=weights.dtype))
